@@ -22,6 +22,28 @@ fn c13_precision() {
         Err(_) => assert!(!valid, "OBL C13.precision: every existing time of day is accepted"),
     }
 }
+// C10: a calendar date that does not exist (month 13, 30 February, day 0 ..) is an error, not a panic; C13: start and finish lie on the day written
+#[kani::proof]
+fn c10_date_calendar() {
+    let y: i32 = kani::any(); let mo: u32 = kani::any(); let d: u32 = kani::any();
+    // the regex captures 4 digits for the year and 1-2 for month and day
+    kani::assume(y >= 0 && y <= 9999 && mo < 100 && d < 100);
+    let hs: u32 = kani::any(); let ms: u32 = kani::any(); let ss: u32 = kani::any();
+    let hf: u32 = kani::any(); let mf: u32 = kani::any(); let sf: u32 = kani::any();
+    // what the time-of-day block hands over (C10.date.range)
+    kani::assume(hs < 24 && hf < 24 && ms < 60 && mf < 60 && ss < 60 && sf < 60);
+    kani::cover!(mo == 2 && d == 30);
+    kani::cover!(valid_date(y, mo, d));
+    let r = frag_calendar(y, mo, d, hs, ms, ss, hf, mf, sf, "x");
+    match r {
+        Ok((a, b)) => {
+            assert!(valid_date(y, mo, d), "OBL C10.date.calendar: a date that is not in the calendar is rejected");
+            assert!((a.y, a.mo, a.d) == (y, mo, d) && (b.y, b.mo, b.d) == (y, mo, d), "OBL C13.calendar: start and finish lie on the day written");
+            assert!((a.h, a.mi, a.s) == (hs, ms, ss) && (b.h, b.mi, b.s) == (hf, mf, sf), "OBL C13.calendar: start / finish carry the start / finish time of day");
+        }
+        Err(_) => assert!(!valid_date(y, mo, d), "OBL C10.date.calendar: every calendar date is accepted"),
+    }
+}
 #[kani::proof]
 fn canary_dateprecision_must_fail() {
     let cap = SCap { g6: None, g7: None, g8: None };
